@@ -277,3 +277,91 @@ def history_from(case, monitors, post=(), call_log=False, extra=None):
     steps.append(dict(base))
     return {"steps": steps, "until_completed": True,
             "probe": bool(case.get("kills"))}
+
+
+# ------------------------------------------------------------------ INS
+def ins_models():
+    return st.one_of(
+        st.builds(lambda d: {"name": "gauss_uniform", "dims": d},
+                  st.integers(2, 4)),
+        st.just({"name": "gauss_gauss", "dims": 2}),
+        st.just({"name": "rosenbrock", "dims": 2}),
+    )
+
+
+@st.composite
+def ins_job(draw, resume_cycles=(0, 0), nlive=(100, 500),
+            criteria=False):
+    model = draw(ins_models())
+    n = draw(st.integers(*nlive))
+    kw = {"seed": draw(st.integers(0, 2**31 - 1)), "nlive": n,
+          "plot": False,
+          "min_samples": draw(st.integers(10, max(10, n // 2))),
+          "max_iteration": draw(st.integers(3, 12))}
+    labels = ["model:" + model["name"]]
+    kw["flow_config"] = {
+        "ftype": draw(st.sampled_from(["realnvp", "nsf", "maf"])),
+        "n_blocks": draw(st.integers(1, 2)),
+        "n_neurons": draw(st.sampled_from([8, 16])),
+    }
+    labels.append("ftype:" + kw["flow_config"]["ftype"])
+    kw["training_config"] = {
+        "max_epochs": draw(st.integers(100, 200)),
+        "patience": draw(st.sampled_from([10, 20])),
+    }
+    if draw(st.booleans()):
+        kw["n_initial"] = draw(st.integers(n // 2, 2 * n))
+    rep = draw(st.sampled_from(["logit", "logit", None]))
+    kw["reparameterisation"] = rep
+    labels.append(f"reparam:{rep}")
+    strict = draw(st.booleans())
+    kw["strict_threshold"] = strict
+    labels.append(f"strict:{strict}")
+    if draw(st.integers(0, 3)) == 0:
+        kw["replace_all"] = True
+        labels.append("replace_all")
+    dc = draw(st.booleans())
+    kw["draw_constant"] = dc
+    labels.append(f"draw_constant:{dc}")
+    iid = draw(st.sampled_from([True, True, False]))
+    kw["draw_iid_live"] = iid
+    labels.append(f"iid:{iid}")
+    tm = draw(st.sampled_from(["entropy", "quantile"]))
+    kw["threshold_method"] = tm
+    labels.append("threshold:" + tm)
+    if tm == "entropy":
+        tk = {"q": draw(st.sampled_from([0.3, 0.5, 0.7]))}
+        if draw(st.booleans()):
+            tk["include_likelihood"] = draw(st.booleans())
+        if draw(st.booleans()):
+            tk["use_log_weights"] = draw(st.booleans())
+    else:
+        tk = {"q": draw(st.sampled_from([0.5, 0.8, 0.9]))}
+        if draw(st.booleans()):
+            tk["include_likelihood"] = draw(st.booleans())
+    if draw(st.booleans()):
+        kw["threshold_kwargs"] = tk
+    for name, vals in (
+        ("weighted_kl", [True, False]),
+        ("reset_flow", [True, False, 2]),
+        ("clip", [True, False]),
+        ("save_log_q", [True, False]),
+        ("min_remove", [1, 5, 20]),
+        ("save_existing_checkpoint", [True, False]),
+    ):
+        if draw(st.integers(0, 2)) == 0:
+            kw[name] = draw(st.sampled_from(vals))
+            labels.append(f"{name}:{kw[name]}")
+    if dc and draw(st.integers(0, 3)) == 0:
+        kw["max_samples"] = draw(st.integers(2 * n + 1, 6 * n))
+        labels.append("max_samples")
+    kw["checkpointing"] = True
+    kw["checkpoint_on_iteration"] = True
+    kw["checkpoint_interval"] = draw(st.integers(1, 3))
+    n_cycles = draw(st.integers(*resume_cycles))
+    kills = [draw(st.floats(0.1, 0.97 if i == 0 else 0.6))
+             for i in range(n_cycles)]
+    if kills:
+        labels.append(f"kills:{len(kills)}")
+    return {"model": model, "ins": True, "kwargs": kw, "kills": kills,
+            "labels": labels}
